@@ -74,6 +74,7 @@ struct caps_hp {
     typedef std::true_type has_ins_f; typedef std::true_type has_del_f; typedef std::true_type has_find_f; typedef std::true_type has_emplace;
     typedef std::false_type has_minmax; typedef std::true_type has_iter; typedef std::true_type ordered_iter; typedef std::true_type counted;
     typedef std::false_type update_replaces;     // update() of an existing key keeps the old item (true: swaps in the new one)
+    typedef std::false_type has_unlink;          // intrusive containers: unlink( item )
 };
 struct caps_rcu: caps_hp { static constexpr PtrKind kind = PK_RCU; };
 struct caps_nogc: caps_hp {
@@ -94,6 +95,7 @@ struct SetCfg {
 template <class Set> inline void set_thread_exit( Set& ) {}
 template <class Set> inline std::string structure_check( Set& ) { return std::string(); }      // overload per family (C18)
 template <class Set, class Cfg> inline Set* make_set( Cfg const& ) { return new Set; }            // overload per family
+template <class Set> struct final_checker { static std::string run( const char* ) { return std::string(); } };     // after the container and its SMR are gone (intrusive.h)
 
 // RCU read-side lock helper
 template <class Set, PtrKind K> struct rcu_guard { rcu_guard() {} };
@@ -140,6 +142,8 @@ struct SetAdapter
     template <class S> bool do_ins_f( S& st, int k, long v, std::false_type ) { return st.insert( Item( k, v )); }
     template <class S> bool do_emplace( S& st, int k, long v, std::true_type ) { return st.emplace( k, v ); }
     template <class S> bool do_emplace( S& st, int k, long v, std::false_type ) { return st.insert( Item( k, v )); }
+    template <class S> bool do_unlink( S& st, int k, std::true_type ) { return st.unlink_orig( k ); }
+    template <class S> bool do_unlink( S&, int, std::false_type ) { return false; }
     template <class S> bool do_erase( S& st, int k, std::true_type ) { return st.erase( k ); }
     template <class S> bool do_erase( S&, int, std::false_type ) { return false; }
     template <class S> bool do_del_f( S& st, int k, long& v, std::true_type ) { return st.erase( k, EraseF{ &v } ); }
@@ -164,6 +168,7 @@ struct SetAdapter
         case EMPLACE: { long v = op.b ? op.b : k * 10L + 2; int i = h.call( t, EMPLACE, k, v ); bool ok = do_emplace( st, k, v, typename Caps::has_emplace()); h.ret( i, ok ); break; }
         case DEL: { int i = h.call( t, DEL, k ); bool ok = do_erase( st, k, typename Caps::has_erase()); h.ret( i, ok ); break; }
         case DEL_F: { int i = h.call( t, DEL_F, k ); long v = 0; bool ok = do_del_f( st, k, v, typename Caps::has_del_f()); h.ret( i, ok, Caps::has_del_f::value && ok ? v : 0 ); if ( !Caps::has_del_f::value ) h.ops[size_t( i )].op = DEL; break; }
+        case UNLINK: { int i = h.call( t, UNLINK, k, k * 10L ); bool ok = do_unlink( st, k, typename Caps::has_unlink()); h.ret( i, ok ); break; }
         case HAS: { int i = h.call( t, HAS, k ); bool ok = st.contains( k ); h.ret( i, ok ); break; }
         case FIND_F: { int i = h.call( t, FIND_F, k ); long v = 0; bool ok = do_find_f( st, k, v, typename Caps::has_find_f()); h.ret( i, ok, ok ? v : 0 ); if ( !Caps::has_find_f::value ) h.ops[size_t( i )].op = HAS; break; }
         case UPD_INS: case UPD_NOINS: {
@@ -219,6 +224,7 @@ struct SetAdapter
     void post_check( cdsmc::Result& r, cdsmc::History const& )
     {
         if ( !q_err.empty()) r.fail( "C18:quiescent-structure", q_err );
+        if ( !r.failed ) { std::string e = final_checker<Set>::run( Prop()); if ( !e.empty()) r.fail( std::string( Prop()) + ":disposer", e ); }
     }
     SetSpec spec() const { SetSpec sp; sp.map_values = true; sp.update_replaces = Caps::update_replaces::value; return sp; }
 };
